@@ -85,6 +85,7 @@ func C16(c *fw.Ctx) {
 		favour = append(favour,
 			"JSIGHT 0.3\nGET /a\n  200 empty\n  200 any\n  201\n    {} // {additionalProperties: \"decimal\"}\n  202 empty\n  202\n    {\"a\": 1}\n",
 			"JSIGHT 0.3\nGET /h\n  200\n    Headers\n      {\"X-Id\": \"a\", \"X-Id \": \"b\", \" X-Id\": \"c\", \"x-id\": \"d\", \"X-Id\\t\": \"e\"}\n    Body any\n  201\n    Headers\n      {\"A\": \"1\", \"A \": \"2\"}\n    Body any\nPOST /h\n  Request\n    Headers\n      {\"K\": \"1\", \" K\": \"2\"}\n    Body any\n  200 any\n",
+			"JSIGHT 0.3\nTYPE @cat\n\"k\" // {regex: \"[a-z]+\"}\nTYPE @b\n{\n  @cat: 2,\n  \"y\": 3\n}\nGET /a\n  200\n    { // {allOf: \"@b\"}\n      \"@cat\": 1\n    }\nGET /b\n  200\n    { // {allOf: \"@c\"}\n      @cat: 1\n    }\nTYPE @c\n{\n  \"@cat\": 5\n}\n",
 			"JSIGHT 0.3\nGET /q\n  Query \"a=1\"\n    [1]\n  200 any\nGET /r\n  204 empty\n  204 any\n  205\n    {} // {additionalProperties: \"decimal\"}\n")
 		for i, d := range favour {
 			j := singleJob(fmt.Sprintf("favour-%d", i), []byte(d), false)
